@@ -4,9 +4,10 @@ All randomness comes from the `rng` argument."""
 import string
 
 # stream framing units for the shared class-level checks (C03 self-delimitation, C04 prefix rejection / reader).
-# The identification string is NOT listed: its prefixes are InvalidValue by design (DESIGN §C04: "C04 does not
-# claim the banner") and it swallows every following line feed (C07 `banner_self_delimiting_full_fails`).
-FRAMING = {'SshRecordInit', 'SshRecordKexDH', 'SshRecordKexDHGroup'}
+# The identification string is self-delimiting (it ends at its first line feed) but its prefixes are InvalidValue,
+# pinned by the repository's tests: C04 records that as the known findings prefix-error:SshProtocolMessage:InvalidValue
+# and reader-error:SshProtocolMessage:InvalidValue (C07 `banner_prefix_reject_full_fails`).
+FRAMING = {'SshRecordInit', 'SshRecordKexDH', 'SshRecordKexDHGroup', 'SshProtocolMessage'}
 
 
 NAME_CHARS = ''.join(c for c in string.printable[:94] if c != ',')   # printable, no blank, no comma
